@@ -52,6 +52,9 @@ func (q *EQuant) varSort() Sort {
 	}
 	return SInt
 }
+// isRef: the bound variable ranges over the references of a struct type ("*T").
+func (q *EQuant) isRef() bool { return strings.HasPrefix(q.VarTyp, "*") }
+
 type ECond struct{ C, A, B Expr }
 
 // EMethod is "x.Name(args)": a package-qualified function or macro when x is
@@ -490,6 +493,7 @@ type FuncContract struct {
 	Overflow  bool     // emit overflow obligations for signed arithmetic too
 	Wraps     bool     // unsigned arithmetic wraps intentionally; no underflow obligations
 	Fresh     []string // result names declared fresh (allocated by the call)
+	Allocates []string // struct types whose new objects the call initialises; "*" = objects of any kind
 	IsIface   bool
 	IsExtern  bool
 	Params    []string // for iface/extern contracts written with explicit parameter names
@@ -520,6 +524,7 @@ func (fc *FuncContract) merge(o *FuncContract) {
 	}
 	fc.MayPanic = fc.MayPanic || o.MayPanic
 	fc.Mutates = fc.Mutates || o.Mutates
+	fc.Allocates = append(fc.Allocates, o.Allocates...)
 	fc.Opaque = fc.Opaque || o.Opaque
 	fc.Pure = fc.Pure || o.Pure
 	fc.Deterministic = fc.Deterministic || o.Deterministic
@@ -622,7 +627,7 @@ var clauseKeywords = map[string]bool{
 	"spec": true, "pred": true, "func": true, "iface": true, "extern": true, "lemma": true,
 	"requires": true, "ensures": true, "modifies": true, "loop": true, "maypanic": true, "mutates": true,
 	"opaque": true, "pure": true, "assume": true, "noinline": true, "overflow": true,
-	"wraps": true, "fresh": true, "at": true, "induction": true, "params": true,
+	"wraps": true, "fresh": true, "allocates": true, "at": true, "induction": true, "params": true,
 	"ghost": true, "chaninv": true, "ufunc": true, "immutable": true, "inline": true, "uses": true, "postuses": true, "private": true, "deterministic": true, "pkginv": true,
 }
 
@@ -906,6 +911,13 @@ func parseContractLines(pkg string, lines []string) (*PkgContracts, error) {
 		case "fresh":
 			for _, n := range strings.Split(rest, ",") {
 				cur.Fresh = append(cur.Fresh, strings.TrimSpace(n))
+			}
+		case "allocates":
+			if strings.TrimSpace(rest) == "" {
+				cur.Allocates = append(cur.Allocates, "*")
+			}
+			for _, n := range strings.FieldsFunc(rest, func(r rune) bool { return r == ',' || r == ' ' }) {
+				cur.Allocates = append(cur.Allocates, n)
 			}
 		case "params":
 			for _, n := range strings.Split(rest, ",") {
